@@ -11,18 +11,87 @@
 //!   stats.txt              input distribution
 #[path = "../rvdb.rs"]
 mod rvdb;
+#[path = "../c13_step.rs"]
+mod step;
 
 use redb::{CompactionError, Database, ReadableDatabase, Savepoint};
 use rv_harness::backend::{Op, RecBackend};
+use rv_harness::conc::Event;
 use rv_harness::{Rng, catch, seed_from_env, silence_panics, tier_is_thorough};
 use rvdb::*;
+use step::*;
 use std::collections::BTreeMap;
 use std::fmt::Write as _;
 
 const MAX_COMPACT_CALLS: u64 = 6;
+/// write transactions compact() may begin after it went past its guards although an object it has to refuse
+/// is alive, before the harness calls that "does not finish" and releases the object
+const SPIN_BOUND: u64 = 150;
+/// write transactions one compact() call may begin at all (observed: a few dozen)
+const RUN_BOUND: u64 = 2_000;
+/// passes (compact_pages transactions) one compact() call may make (observed: at most a handful; the model
+/// proves termination, not a number)
+const PASS_BOUND: u64 = 200;
+
+/// What the observer sees between two of compact()'s own transactions
+struct Snap {
+    /// label -> paths (positions in order-0 units, root first, the page itself last) and the pages themselves
+    trees: Vec<(String, Vec<Vec<u64>>, Vec<redb::verif::VPage>)>,
+    /// allocated order-0 units
+    allocated: std::collections::BTreeSet<u64>,
+    /// free buddy blocks (start in order-0 units, order)
+    free_blocks: Vec<(u64, u8)>,
+    /// the highest page of any tree (start, order)
+    highest: Option<(u64, u8)>,
+    file_len: usize,
+}
+
+fn take_snap(obs: &redb::VObserver, file_len: usize) -> Result<Snap, String> {
+    let mem = obs.mem_snapshot();
+    if !mem.allocators_loaded {
+        return Err("allocator state not loaded".into());
+    }
+    let r = u64::from(mem.layout.full_region_pages);
+    let pos = |p: &redb::verif::VPage| u64::from(p.region) * r + (u64::from(p.index) << p.order);
+    let latest = mem.latest().clone();
+    let paths = catch(|| obs.page_paths(latest.data_root, latest.system_root)).map_err(|p| format!("panic: {p}"))?.map_err(|e| e.to_string())?;
+    let mut trees = vec![];
+    let mut highest: Option<(u64, u8)> = None;
+    for t in &paths {
+        let label = format!(
+            "{}:{}",
+            if t.system { "S" } else { "D" },
+            match &t.table {
+                None => "<master>".to_string(),
+                Some(n) => format!("{}{}", if t.multimap { "mm:" } else { "t:" }, n),
+            }
+        );
+        let mut pp = vec![];
+        let mut pages = vec![];
+        for path in &t.paths {
+            let last = path.last().unwrap();
+            let at = pos(last);
+            if highest.map(|(h, _)| at > h).unwrap_or(true) {
+                highest = Some((at, last.order));
+            }
+            pp.push(path.iter().map(&pos).collect::<Vec<u64>>());
+            pages.push(*last);
+        }
+        trees.push((label, pp, pages));
+    }
+    let allocated = mem.allocated_order0().into_iter().map(|(reg, i)| u64::from(reg) * r + u64::from(i)).collect();
+    let mut free_blocks = vec![];
+    for (reg, region) in mem.regions.iter().enumerate() {
+        for (i, o) in &region.free_blocks {
+            free_blocks.push((reg as u64 * r + (u64::from(*i) << *o), *o));
+        }
+    }
+    Ok(Snap { trees, allocated, free_blocks, highest, file_len })
+}
 
 struct H {
     idx: u64,
+    seed: u64,
     cfg: Cfg,
     r: Rng,
     db: Option<Database>,
@@ -38,6 +107,7 @@ struct H {
     m: BTreeMap<String, u64>,
     compactions: u64,
     nontrivial: bool,
+    rounds_done: u64,
 }
 
 fn orders_of(db: &Database) -> Result<BTreeMap<String, Vec<u8>>, String> {
@@ -69,6 +139,7 @@ impl H {
         };
         H {
             idx,
+            seed,
             cfg,
             r,
             db: None,
@@ -84,6 +155,7 @@ impl H {
             m: BTreeMap::new(),
             compactions: 0,
             nontrivial: false,
+            rounds_done: 0,
         }
     }
 
@@ -314,6 +386,569 @@ impl H {
         }
     }
 
+
+    /// Guard situations under concurrency (step model coq/Compact/Guard.v): a write transaction that was
+    /// begun BEFORE compact() is called is still open; the guarded object (ephemeral / persistent savepoint;
+    /// every savepoint also owns a read reference) comes into existence before the call, between the up-front
+    /// checks, or while compact() is parked before begin_write(); the writer commits or aborts before or after
+    /// compact() went to sleep waiting for the write slot; existing savepoints / readers are dropped at any of
+    /// compact()'s stops. The schedule is forced through the H4 pause points; the labels of what was done go to
+    /// cases.txt and the extracted step machine predicts compact()'s answer. Direct oracle (the property):
+    /// compact() must not get past its guards while an object it has to refuse exists, and must return.
+    fn conc_guard(&mut self, k: u64) {
+        let mut r = Rng::new(self.seed ^ 0xC13_C0C).fork(self.idx * 64 + k);
+        let writer = r.chance(6, 7);
+        // 0 nothing, 1 ephemeral savepoint, 2 persistent savepoint
+        let kind = if writer { *r.pick(&[1u8, 1, 1, 2, 2, 0]) } else { *r.pick(&[1u8, 0]) };
+        let create_at: u8 = if writer { *r.pick(&[0u8, 1, 2, 2, 2]) } else { 0 };
+        let drop_at: Option<u8> = if kind == 1 && r.chance(1, 3) { Some(*r.pick(&[1u8, 2, 4, 5])).filter(|d| *d >= create_at) } else { None };
+        let fin_commit = r.chance(3, 4);
+        let fin_at_p2 = r.chance(1, 2);
+        let writes = r.chance(2, 3);
+        let reader = r.chance(1, 5);
+        let reader_drop_at: Option<u8> = if reader && r.chance(3, 4) { Some(*r.pick(&[1u8, 2, 4, 5])) } else { None };
+        let load = Load::light();
+
+        let mut esp: Vec<Savepoint> = vec![];
+        let mut psp_open: Vec<u64> = vec![]; // created by the open writer, not committed yet
+        let mut psp_live: Vec<u64> = vec![]; // committed
+        let mut readers = vec![];
+        let mut w: Option<redb::WriteTransaction> = None;
+        let mut wspec = self.spec.clone();
+        let mut labels: Vec<&'static str> = vec![];
+        let desc = format!(
+            "conc(writer={} kind={} create_at={create_at} drop_at={drop_at:?} fin={}@{} writes={} reader={} reader_drop_at={reader_drop_at:?})",
+            u8::from(writer), ["none", "esp", "psp"][kind as usize], if fin_commit { "commit" } else { "abort" }, if fin_at_p2 { "P2" } else { "blocked" },
+            u8::from(writes), u8::from(reader)
+        );
+        self.absorb();
+        {
+            let db = self.db.as_ref().unwrap();
+            if !writer && kind == 1 {
+                let q = catch(|| {
+                    let t = db.begin_write().map_err(|e| e.to_string())?;
+                    let sp = t.ephemeral_savepoint().map_err(|e| e.to_string())?;
+                    t.abort().map_err(|e| e.to_string())?;
+                    Ok::<Savepoint, String>(sp)
+                });
+                match q {
+                    Ok(Ok(sp)) => esp.push(sp),
+                    other => {
+                        self.fail(format!("{desc}: creating an ephemeral savepoint failed: {:?}", other.map(|r| r.map(|_| ()))));
+                        return;
+                    }
+                }
+            }
+            if reader {
+                match db.begin_read() {
+                    Ok(t) => readers.push(t),
+                    Err(e) => {
+                        self.fail(format!("{desc}: begin_read failed: {e}"));
+                        return;
+                    }
+                }
+            }
+            if writer {
+                match catch(|| db.begin_write()) {
+                    Ok(Ok(t)) => w = Some(t),
+                    other => {
+                        self.fail(format!("{desc}: begin_write failed: {:?}", other.map(|r| r.map(|_| ()).map_err(|e| e.to_string()))));
+                        return;
+                    }
+                }
+            }
+        }
+        // what happens at stop `q` of compact() (0 = before the call)
+        macro_rules! actions {
+            ($q:expr) => {{
+                let q: u8 = $q;
+                let mut err: Option<String> = None;
+                if kind != 0 && writer && create_at == q {
+                    if let Some(t) = w.as_ref() {
+                        if kind == 1 {
+                            match catch(|| t.ephemeral_savepoint()) {
+                                Ok(Ok(sp)) => {
+                                    esp.push(sp);
+                                    if q > 0 { labels.push("esp"); }
+                                }
+                                other => err = Some(format!("ephemeral_savepoint failed: {:?}", other.map(|r| r.map(|_| ()).map_err(|e| e.to_string())))),
+                            }
+                        } else {
+                            match catch(|| t.persistent_savepoint()) {
+                                Ok(Ok(id)) => {
+                                    psp_open.push(id);
+                                    if q > 0 { labels.push("psp"); }
+                                }
+                                other => err = Some(format!("persistent_savepoint failed: {:?}", other.map(|r| r.map_err(|e| e.to_string())))),
+                            }
+                        }
+                    }
+                }
+                if drop_at == Some(q) {
+                    if let Some(sp) = esp.pop() {
+                        let _ = catch(move || drop(sp));
+                        labels.push("dropesp");
+                    }
+                }
+                if reader_drop_at == Some(q) {
+                    if let Some(t) = readers.pop() {
+                        drop(t);
+                        labels.push("dropread");
+                    }
+                }
+                err
+            }};
+        }
+        // the open writer writes (after its savepoint: a savepoint needs a clean transaction) and ends
+        macro_rules! finish_writer {
+            ($record:expr) => {{
+                let mut err: Option<String> = None;
+                if let Some(t) = w.take() {
+                    if writes {
+                        if let Err(e) = mutate(&t, &mut wspec, &mut r, &load) {
+                            err = Some(format!("writer: data operation failed or disagreed with the spec map: {e}"));
+                        }
+                    }
+                    if fin_commit {
+                        match catch(move || t.commit().map_err(|e| e.to_string())) {
+                            Ok(Ok(())) => {
+                                self.spec = wspec.clone();
+                                self.spec_durable = self.spec.clone();
+                                psp_live.append(&mut psp_open);
+                                if $record { labels.push("commit"); }
+                            }
+                            other => err = Some(format!("writer: commit failed: {other:?}")),
+                        }
+                    } else {
+                        match catch(move || t.abort().map_err(|e| e.to_string())) {
+                            Ok(Ok(())) => {
+                                psp_open.clear();
+                                if $record { labels.push("abort"); }
+                            }
+                            other => err = Some(format!("writer: abort failed: {other:?}")),
+                        }
+                    }
+                }
+                err
+            }};
+        }
+        if let Some(e) = actions!(0) {
+            self.fail(format!("{desc}: {e}"));
+            return;
+        }
+        let init = format!("conc p=0 e={} r={} w={} wn={} :", esp.len(), readers.len(), u8::from(writer), psp_open.len());
+        // ---------------- the call
+        let db = self.db.take().unwrap();
+        let mut st = Stepped::start(db, GUARD_ALPHABET);
+        // stop -> (model steps of compact() done when it is reached, position). A refusal inside the guard
+        // transaction drops that transaction (X.abort is reached either way); compact() is past its guards when it
+        // begins its SECOND write transaction.
+        let table: [(&str, usize, u8); 5] =
+            [("T.any_savepoint#1", 1, 1), ("X.begin_write#1", 3, 2), ("X.begin_write.slot#1", 4, 4), ("T.any_savepoint#2", 5, 5), ("X.begin_write#2", 7, 6)];
+        let mut seen: BTreeMap<String, u32> = BTreeMap::new();
+        let mut cs = 0usize;
+        let mut result: Option<String> = None;
+        let mut waiting = false;
+        let mut past_guards = false;
+        let mut problem: Option<String> = None;
+        let mut stops: Vec<String> = vec![];
+        while result.is_none() && !past_guards && problem.is_none() {
+            let ev = if waiting { st.wait() } else { st.step() };
+            waiting = false;
+            match ev {
+                Event::At(p) => {
+                    let n = seen.entry(p.clone()).or_default();
+                    *n += 1;
+                    let id = format!("{p}#{n}");
+                    stops.push(id.clone());
+                    if let Some((_, cum, pos)) = table.iter().find(|(name, _, _)| *name == id) {
+                        while cs < *cum {
+                            labels.push("C");
+                            cs += 1;
+                        }
+                        if *pos == 6 {
+                            past_guards = true;
+                        } else {
+                            if let Some(e) = actions!(*pos) {
+                                problem = Some(e);
+                            }
+                            if *pos == 2 && fin_at_p2 {
+                                if let Some(e) = finish_writer!(true) {
+                                    problem = Some(e);
+                                }
+                            }
+                        }
+                    }
+                }
+                Event::Blocked => {
+                    // compact() sleeps in begin_write(): the writer ends now
+                    if w.is_none() {
+                        problem = Some("compact() waits for the write slot although no write transaction is open".into());
+                    } else if let Some(e) = finish_writer!(true) {
+                        problem = Some(e);
+                    }
+                    waiting = true;
+                }
+                Event::Done(res) => result = Some(res),
+                Event::Hung => problem = Some("HUNG".into()),
+            }
+        }
+        if let Some(e) = problem {
+            if e == "HUNG" {
+                st.abandon();
+                self.fail(format!("{desc}: compact() did not reach its next step within {:?} (stops so far: {})", rv_harness::conc::HANG_TIMEOUT, stops.join(",")));
+            } else {
+                st.abandon();
+                self.fail(format!("abort: {desc}: {e} (stops so far: {})", stops.join(",")));
+            }
+            return;
+        }
+        // ---------------- past the guards: the property itself
+        let mut breach: Option<String> = None;
+        let mut spun = false;
+        let mut begins = 0u64;
+        if past_guards {
+            let live = |esp: &Vec<Savepoint>, psp_live: &Vec<u64>, nread: usize| {
+                let mut v = vec![];
+                if !esp.is_empty() {
+                    v.push(format!("{} ephemeral savepoint(s)", esp.len()));
+                }
+                if !psp_live.is_empty() {
+                    v.push(format!("{} persistent savepoint(s)", psp_live.len()));
+                }
+                if nread > 0 {
+                    v.push(format!("{nread} read transaction(s)"));
+                }
+                v.join(" + ")
+            };
+            let l0 = live(&esp, &psp_live, readers.len());
+            if !l0.is_empty() {
+                breach = Some(l0);
+            }
+            begins = 1;
+            st.ctl.set_blocking(RUN_ALPHABET);
+            loop {
+                match st.step() {
+                    Event::At(p) => {
+                        if p == "X.begin_write" {
+                            begins += 1;
+                            if begins > SPIN_BOUND && !spun && !(esp.is_empty() && psp_live.is_empty() && readers.is_empty()) {
+                                // still running while the object lives: release what can be released without the database
+                                spun = true;
+                                for sp in esp.drain(..) {
+                                    let _ = catch(move || drop(sp));
+                                }
+                                readers.clear();
+                                if !psp_live.is_empty() {
+                                    problem = Some(format!("began {begins} write transactions and did not return while a persistent savepoint exists"));
+                                    break;
+                                }
+                            }
+                            if begins > RUN_BOUND {
+                                problem = Some(format!("began {begins} write transactions and did not return"));
+                                break;
+                            }
+                        }
+                    }
+                    Event::Blocked => {
+                        problem = Some("compact() waits for the write slot although nothing can hold it".into());
+                        break;
+                    }
+                    Event::Done(res) => {
+                        result = Some(res);
+                        break;
+                    }
+                    Event::Hung => {
+                        problem = Some(format!("no step within {:?}", rv_harness::conc::HANG_TIMEOUT));
+                        break;
+                    }
+                }
+            }
+        }
+        let res = result.clone().unwrap_or_else(|| "no-return".into());
+        let target = if res.starts_with("none") { 8 } else { 7 };
+        while cs < target {
+            labels.push("C");
+            cs += 1;
+        }
+        writeln!(self.cases, "{init} {}", labels.join(" ")).unwrap();
+        writeln!(self.outs, "{}", if res.starts_with("none") { "none" } else { res.as_str() }).unwrap();
+        self.trace.push(format!("{desc}[{}]->{res}", labels.join(" ")));
+        self.mark("conc_guard_situations");
+        self.mark(&format!("conc_{}", res.replace(' ', "_")));
+        if result.is_some() && esp.len() + psp_live.len() + psp_open.len() > 0 && !past_guards {
+            self.mark("conc_refused_object_created_while_parked");
+        }
+        if let Some(what) = &breach {
+            let tail = if let Some(p) = &problem {
+                format!("; then compact() {p}")
+            } else if spun {
+                format!("; it then began {SPIN_BOUND} write transactions without returning for as long as the object lived (not a bounded number of passes) and returned `{res}` only after the harness released it ({begins} transactions in all)")
+            } else {
+                format!("; it returned `{res}` after {begins} write transactions")
+            };
+            self.viol.push(format!(
+                "compact() went past its guards (aborted its guard transaction and went on to relocate) while {what} existed, created {} it took the write slot{tail} [{desc}; schedule: {}] || trace: {}",
+                if create_at == 0 || !writer { "before" } else { "by the concurrent writer before" },
+                labels.join(" "),
+                self.trace.join(" ; ")
+            ));
+            self.dead = true;
+        }
+        if problem.is_some() || result.is_none() {
+            st.abandon();
+            if breach.is_none() {
+                self.fail(format!("{desc}: compact() {} (no fixpoint: the call does not finish)", problem.unwrap_or_else(|| "did not return".into())));
+            }
+            return;
+        }
+        match st.finish() {
+            Some(db) => self.db = Some(db),
+            None => {
+                self.fail(format!("abort: {desc}: the database did not come back from the compactor thread"));
+                return;
+            }
+        }
+        self.absorb();
+        if self.dead {
+            return;
+        }
+        if !res.starts_with("none") && !res.starts_with("err") {
+            self.fail(format!("{desc}: compact() answered `{res}`"));
+            return;
+        }
+        // ---------------- release everything, then nothing may have changed but what the writer committed
+        if let Some(e) = finish_writer!(false) {
+            self.fail(format!("{desc}: {e}"));
+            return;
+        }
+        for sp in esp.drain(..) {
+            let _ = catch(move || drop(sp));
+        }
+        readers.clear();
+        for id in psp_live.drain(..) {
+            let db = self.db.as_ref().unwrap();
+            let q = catch(|| {
+                let t = db.begin_write().map_err(|e| e.to_string())?;
+                t.delete_persistent_savepoint(id).map_err(|e| e.to_string())?;
+                t.commit().map_err(|e| e.to_string())
+            });
+            if !matches!(q, Ok(Ok(()))) {
+                self.fail(format!("{desc}: deleting the persistent savepoint failed: {q:?}"));
+                return;
+            }
+        }
+        self.absorb();
+        if !self.check_contents(&format!("after {desc} -> {res}")) {
+            return;
+        }
+        let _ = self.own(&format!("after {desc} -> {res}"));
+    }
+
+
+    /// One `compact()` call, stepped through the transactions it begins (H4 pause points `X.begin_write`,
+    /// `X.commit`, `X.abort`), with a look at the page trees and the allocator before and after every pass
+    /// (`compact_pages` transaction).  compact()'s transactions are: the guard transaction (aborted), a drain
+    /// (commits until nothing is pending, then one aborted transaction), then pass / drain alternating until a
+    /// pass aborts (no progress).  Per pass that moved pages: the observed relocation of the data tables goes to the
+    /// extracted checker `pass_okP` (cases.txt `pass` line; Pass.v: accepted => measure strictly smaller), and every
+    /// target must have been free before the pass.  Per pass that moved nothing: no free block that could hold the
+    /// highest page lies below it (the model's fixpoint: packed).  Returns compact()'s answer.
+    fn compact_stepped(&mut self, call: u64) -> Option<String> {
+        #[derive(Clone, Copy, PartialEq, Debug)]
+        enum Tx {
+            Guard,
+            Drain,
+            Pass,
+        }
+        let db = self.db.take().unwrap();
+        let obs = db.verif_observer();
+        let mut st = Stepped::start(db, RUN_ALPHABET);
+        let (mut expect, mut cur): (Tx, Option<Tx>) = (Tx::Guard, None);
+        let mut recognised = true;
+        let mut before: Option<Snap> = None;
+        let mut pending_after = false;
+        let (mut passes, mut begins) = (0u64, 0u64);
+        let mut problem: Option<String> = None;
+        let mut result: Option<String> = None;
+        let mut notes: Vec<String> = vec![];
+        loop {
+            match st.step() {
+                Event::At(p) => match p.as_str() {
+                    "X.begin_write" => {
+                        begins += 1;
+                        if begins > RUN_BOUND {
+                            problem = Some(format!("began {begins} write transactions and did not return (no fixpoint: the call does not finish)"));
+                            break;
+                        }
+                        if cur.is_some() {
+                            recognised = false;
+                        }
+                        if recognised {
+                            let len = self.file_len();
+                            if pending_after {
+                                pending_after = false;
+                                match (before.take(), take_snap(&obs, len)) {
+                                    (Some(b), Ok(a)) => {
+                                        if let Some(v) = self.pass_observed(call, passes, &b, &a) {
+                                            problem = Some(v);
+                                            break;
+                                        }
+                                    }
+                                    (_, Err(e)) => notes.push(format!("snapshot after pass {passes} failed: {e}")),
+                                    _ => {}
+                                }
+                            }
+                            if expect == Tx::Pass {
+                                passes += 1;
+                                if passes > PASS_BOUND {
+                                    problem = Some(format!("made {passes} passes and still reports progress (no fixpoint: the call does not finish)"));
+                                    break;
+                                }
+                                match take_snap(&obs, len) {
+                                    Ok(b) => before = Some(b),
+                                    Err(e) => notes.push(format!("snapshot before pass {passes} failed: {e}")),
+                                }
+                            }
+                        }
+                        cur = Some(expect);
+                    }
+                    "X.commit" | "X.abort" => {
+                        let commit = p == "X.commit";
+                        match (cur.take(), commit) {
+                            (Some(Tx::Guard), false) => expect = Tx::Drain,
+                            (Some(Tx::Drain), true) => expect = Tx::Drain,
+                            (Some(Tx::Drain), false) => expect = Tx::Pass,
+                            (Some(Tx::Pass), true) => {
+                                pending_after = true;
+                                expect = Tx::Drain;
+                            }
+                            (Some(Tx::Pass), false) => {
+                                if let Some(b) = before.take() {
+                                    self.pass_without_progress(&b);
+                                }
+                                expect = Tx::Drain;
+                            }
+                            _ => recognised = false,
+                        }
+                    }
+                    _ => {}
+                },
+                Event::Blocked => {
+                    problem = Some("waits for the write slot although nothing can hold it".into());
+                    break;
+                }
+                Event::Done(r) => {
+                    result = Some(r);
+                    break;
+                }
+                Event::Hung => {
+                    problem = Some(format!("made no step within {:?}", rv_harness::conc::HANG_TIMEOUT));
+                    break;
+                }
+            }
+        }
+        drop(obs);
+        if let Some(p) = problem {
+            st.abandon();
+            if p.starts_with("pass ") {
+                self.fail(p);
+            } else {
+                self.fail(format!("compact() call #{call} {p}"));
+            }
+            return None;
+        }
+        match st.finish() {
+            Some(db) => self.db = Some(db),
+            None => {
+                self.fail(format!("abort: compact() call #{call}: the database did not come back from the compactor thread"));
+                return None;
+            }
+        }
+        if !recognised {
+            self.mark("pass_sequence_unrecognised");
+        }
+        for n in notes {
+            self.mark("pass_snapshot_failed");
+            self.trace.push(n);
+        }
+        *self.m.entry("passes_observed".into()).or_default() += passes;
+        result
+    }
+
+    /// a pass that committed: returns Some(violation text) for a direct-oracle finding
+    fn pass_observed(&mut self, call: u64, pass: u64, b: &Snap, a: &Snap) -> Option<String> {
+        self.mark("pass_progressed");
+        if a.file_len > b.file_len {
+            self.mark("pass_grew_file_transiently");
+        }
+        let mut entries: Vec<String> = vec![];
+        let mut moves: Vec<String> = vec![];
+        let mut moved_any = false;
+        for (label, paths, _) in &b.trees {
+            if !label.starts_with("D:") || label == "D:<master>" {
+                continue;
+            }
+            let Some((_, apaths, apages)) = a.trees.iter().find(|(l, _, _)| l == label) else {
+                self.mark("pass_table_vanished");
+                return None;
+            };
+            if apaths.len() != paths.len() || apaths.iter().zip(paths).any(|(x, y)| x.len() != y.len()) {
+                // the call-level shape oracle reports it
+                self.mark("pass_shape_differs");
+                return None;
+            }
+            for (j, path) in paths.iter().enumerate() {
+                let (old, anc) = path.split_last().unwrap();
+                entries.push(format!("{old}/{}", anc.iter().map(|x| x.to_string()).collect::<Vec<_>>().join(".")));
+                let new = *apaths[j].last().unwrap();
+                if new != *old {
+                    moved_any = true;
+                    moves.push(format!("{old}>{new}"));
+                    // the property's "crash ... recovers to unchanged contents" / old readers: the old version
+                    // must not be overwritten -- the target was free before the pass
+                    let pg = apages[j];
+                    for u in new..new + (1u64 << pg.order) {
+                        if b.allocated.contains(&u) {
+                            return Some(format!(
+                                "pass {pass} of compact() call #{call} relocated page {old} of {label} onto position {new} (order {}), of which unit {u} was allocated before the pass: a page of the old version is overwritten",
+                                pg.order
+                            ));
+                        }
+                    }
+                }
+            }
+        }
+        if moved_any {
+            self.mark("pass_moved_data_pages");
+        }
+        writeln!(self.cases, "pass {} ; {}", entries.join(" "), moves.join(" ")).unwrap();
+        writeln!(self.outs, "passok {}", if moved_any { "lt" } else { "eq" }).unwrap();
+        None
+    }
+
+    /// a pass that aborted: the model's fixpoint is "nothing free below the highest page"; with buddy blocks: no
+    /// free block that could hold the highest page starts below it
+    fn pass_without_progress(&mut self, b: &Snap) {
+        self.mark("pass_no_progress");
+        if let Some((at, order)) = b.highest {
+            let room = b.free_blocks.iter().any(|(start, o)| *o >= order && *start < at);
+            self.mark(if room { "pass_no_progress_but_room_below" } else { "pass_no_progress_packed" });
+            if order == 0 {
+                // the model's statement itself (c13_pass_no_progress): every position below the highest page is taken
+                let units: Vec<String> = b.allocated.iter().filter(|u| **u <= at).map(|u| u.to_string()).collect();
+                writeln!(self.cases, "packed {}", units.join(" ")).unwrap();
+                writeln!(self.outs, "packed true").unwrap();
+                self.mark("pass_no_progress_highest_order0");
+            } else {
+                // buddy blocks: no free block that could hold the highest page starts below it
+                let blocks: Vec<String> = b.free_blocks.iter().filter(|(start, _)| *start < at).map(|(s, o)| format!("{s}^{o}")).collect();
+                writeln!(self.cases, "packedblocks {at}^{order} {}", blocks.join(" ")).unwrap();
+                writeln!(self.outs, "packedblocks true").unwrap();
+            }
+        }
+    }
+
     fn crash_images_of(&mut self, before_log: &CrashLog, ops: &[Op], n: u64, durable_before: &Contents) {
         if ops.is_empty() {
             return;
@@ -402,13 +1037,11 @@ impl H {
             calls += 1;
             let len_before = self.file_len();
             let before_log = self.log.clone();
-            let db = self.db.as_mut().unwrap();
-            let r = catch(|| db.compact());
+            let Some(res) = self.compact_stepped(calls) else { return };
             let ops: Vec<Op> = self.backend.take_ops();
             for o in &ops {
                 self.log.feed(o.clone());
             }
-            let res = Self::compact_result(r);
             self.trace.push(format!("compact->{res}"));
             writeln!(self.cases, "guard p=0 e=0 r=0").unwrap();
             writeln!(self.outs, "{}", if res.starts_with("none") { "none" } else { res.as_str() }).unwrap();
@@ -418,7 +1051,7 @@ impl H {
             }
             let progressed = res == "none true";
             let len_after = self.file_len();
-            if len_after > len0 {
+            if len_after > len0 && (progressed || calls > 1) {
                 self.fail(format!("compaction made the file larger than it was before: {len0} -> {len_after} bytes (call #{calls})"));
                 return;
             }
@@ -513,6 +1146,20 @@ impl H {
             if self.r.chance(2, 3) {
                 self.refusals();
             }
+            if self.dead {
+                break;
+            }
+            {
+                let mut cr = Rng::new(self.seed ^ 0xC13_C0D).fork(self.idx * 8 + self.rounds_done);
+                let n = if cr.chance(3, 4) { 1 + cr.below(2) } else { 0 };
+                for k in 0..n {
+                    if self.dead {
+                        break;
+                    }
+                    self.conc_guard(self.rounds_done * 8 + k);
+                }
+            }
+            self.rounds_done += 1;
             if self.dead {
                 break;
             }
